@@ -1,11 +1,53 @@
-"""Registry of properties -> Kani harnesses, bounds, loop rules (see DESIGN.md §5)."""
+"""Registry of properties -> Kani harnesses, bounds, loop rules (see DESIGN.md §5 and §9)."""
+import re
 
-DEFAULT_TIMEOUT = {"quick": 420, "thorough": 2400}
+DEFAULT_TIMEOUT = {"quick": 900, "thorough": 3000}
 
-# regex on the demangled function name (or the loop id) -> unwind bound for that loop
+# regex on the demangled function name (or the loop id) -> unwind bound for that loop.
+# First match wins (harness-specific rules are tried after these defaults).
 DEFAULT_LOOP_RULES = {
     r"^memcmp\.": 43,
 }
+
+COMMON_ASSUMPTIONS = [
+    "verification build: /repo sources copied verbatim; only `std::collections` paths rewritten to the slot-array vcollections model; harness modules appended under cfg(kani)",
+    "model crates in the trusted base: verif-tracing (no-op macros), memchr (naive loops), quick-xml (event tapes, interned names), tokio (leaf futures over model state), tokio-rustls / russh / russh-keys (type shells over scripted streams), vcollections, rpsl-lite / bgpfu-lite (agent build)",
+    "Kani --no-memory-safety-checks: pointer-validity checks are off (bgpfu-rs contains no unsafe code; model crates' unsafe blocks are trusted); panics, arithmetic overflow, slice bounds and unwinding assertions stay on",
+    "bounded: every claim holds only within the bounds listed per harness; unwinding assertions make a too-small bound fail instead of truncating",
+]
+
+NETCONF = "bgpfu-netconf"
+AGENT = "bgpfu-junos-agent"
+
+# module (inside the verification copy) that holds each harness, by name prefix; used for
+# `--harness <module>::<name> --exact` (a bare name is a substring pattern for Kani)
+MODULES = [
+    (r"^c0[67]_tls_", "transport::tls::verif_tls"),
+    (r"^c0[67]_junos_local_", "transport::junos_local::verif_junos_local"),
+    (r"^c0[67]_ssh_", "transport::ssh::verif_ssh"),
+    (r"^c09_|^c05_|^c18_|^c12_negotiation", "session::verif_session"),
+    (r"^c12_server_hello", "message::hello::verif_hello"),
+    (r"^c08_load_configuration", "message::rpc::operation::junos::load_configuration::verif_load"),
+    (r"^c08_rpc_error_reader", "message::rpc::error::verif_error"),
+    (r"^c08_|^cal_nothing", "message::rpc::verif_replies"),
+    (r"^c19_frequency", "cli::verif_cli"),
+    (r"^c19_", "task::verif_task"),
+]
+
+CHECKS = {}
+
+
+def harness(name, package=NETCONF, **kw):
+    d = {"name": name, "package": package}
+    for pat, mod in MODULES:
+        if re.search(pat, name):
+            d["mod"] = mod
+            break
+    d.update(kw)
+    return d
+
+
+# ------------------------------------------------------------------------------------------- C06/C07
 
 FRAMING_LOOPS = {
     r"Finder.*find\.0$": 7,      # inner needle comparison (needle = 6 bytes)
@@ -14,30 +56,12 @@ FRAMING_LOOPS = {
     r"run_bounded": 2,
 }
 
-COMMON_ASSUMPTIONS = [
-    "verification build: /repo sources copied verbatim; only `std::collections` paths rewritten to the Vec-backed vcollections model; harness modules appended under cfg(kani)",
-    "model crates in the trusted base: verif-tracing (no-op macros), memchr (naive loops), quick-xml (event tapes, interned names), tokio (leaf futures over model state), tokio-rustls / russh / russh-keys (type shells over scripted streams), vcollections",
-    "Kani --no-memory-safety-checks: pointer-validity checks are off (bgpfu-rs contains no unsafe code; model crates' unsafe blocks are trusted); panics, arithmetic overflow, slice bounds and unwinding assertions stay on",
-    "bounded: every claim holds only within the bounds listed per harness; unwinding assertions make a too-small bound fail instead of truncating",
-]
-
 SSH_LOOPS = {
     r"Finder.*find\.0$": 7,
     r"Finder.*find\.1$": 12,
     r"Ssh.*connect": 8,           # pump loop: <= 4 data packets + 2 close answers + exit
     r"run_bounded": 3,
 }
-
-NETCONF = "bgpfu-netconf"
-
-CHECKS = {}
-
-
-def harness(name, package=NETCONF, **kw):
-    d = {"name": name, "package": package}
-    d.update(kw)
-    return d
-
 
 CHECKS["C06"] = {
     "crates": ["netconf"],
@@ -48,20 +72,20 @@ CHECKS["C06"] = {
                    "next delimiter-terminated message after exactly the reads needed to deliver its last delimiter byte.",
     "assumptions": ["reads deliver exactly the scripted chunks; TLS record reassembly below read_buf is not modelled",
                     "BytesMut::reserve_inner (grow path) replaced by a stub that asserts it is unreachable; the 1 KiB receive buffer is replaced by a 32-byte one",
-                    "the SSH pump (transport/ssh.rs) is NOT covered: its harness (c06_ssh_segmentation, thorough tier) did not finish in 90 min"],
+                    "the SSH pump (transport/ssh.rs) is NOT covered: its harness (c06_ssh_segmentation, kept in the tree) did not finish in 90 min"],
     "harnesses": [
         harness("c06_tls_one_message_cuts", functions=["transport::tls::Receiver::recv", "bytes::BytesMut", "memchr::memmem::Finder::find (model)"],
-                bounds="1 message, payload<=2 bytes over {x,],>}, 1..3 chunks, 1 poll", loops=FRAMING_LOOPS, stubbing=True, timeout={"quick": 900, "thorough": 2400}),
+                bounds="1 message, payload<=2 bytes over {x,],>}, 1..3 chunks, 1 poll", loops=FRAMING_LOOPS, stubbing=True),
         harness("c06_tls_two_messages", functions=["transport::tls::Receiver::recv"],
-                bounds="2 messages, payload<=1 byte, 1..2 chunks", loops=FRAMING_LOOPS, stubbing=True, timeout={"quick": 900, "thorough": 2400}),
+                bounds="2 messages, payload<=1 byte, 1..2 chunks", loops=FRAMING_LOOPS, stubbing=True),
         harness("c06_junos_local_one_message_cuts", functions=["transport::junos_local::Receiver::recv"],
-                bounds="as c06_tls_one_message_cuts", loops=FRAMING_LOOPS, stubbing=True, timeout={"quick": 900, "thorough": 2400}),
+                bounds="as c06_tls_one_message_cuts", loops=FRAMING_LOOPS, stubbing=True),
         harness("c06_junos_local_two_messages", functions=["transport::junos_local::Receiver::recv"],
-                bounds="as c06_tls_two_messages", loops=FRAMING_LOOPS, stubbing=True, timeout={"quick": 900, "thorough": 2400}),
+                bounds="as c06_tls_two_messages", loops=FRAMING_LOOPS, stubbing=True),
         harness("c06_tls_segmentation", functions=["transport::tls::Receiver::recv"],
-                bounds="2 messages, payload<=2 bytes, 1..4 chunks", loops=FRAMING_LOOPS, stubbing=True, tiers=["thorough"], timeout={"thorough": 3000}, mem_gb=30),
+                bounds="2 messages, payload<=2 bytes, 1..4 chunks", loops=FRAMING_LOOPS, stubbing=True, tiers=["thorough"], mem_gb=30),
         harness("c06_junos_local_segmentation", functions=["transport::junos_local::Receiver::recv"],
-                bounds="2 messages, payload<=2 bytes, 1..4 chunks", loops=FRAMING_LOOPS, stubbing=True, tiers=["thorough"], timeout={"thorough": 3000}, mem_gb=30),
+                bounds="2 messages, payload<=2 bytes, 1..4 chunks", loops=FRAMING_LOOPS, stubbing=True, tiers=["thorough"], mem_gb=30),
     ],
 }
 
@@ -73,14 +97,69 @@ CHECKS["C07"] = {
                    "close are answered at most twice, then Pending).",
     "assumptions": ["reads deliver exactly the scripted chunks; close is what read_buf reports (Ok(0) / Err)",
                     "session-level propagation (pending RPCs fail once recv() fails) follows from Session::recv's `?` and is exercised by the C05 harnesses, not here",
-                    "the SSH pump (transport/ssh.rs) is NOT covered: c07_ssh_disconnect (thorough tier) did not finish in 90 min"],
+                    "the SSH pump (transport/ssh.rs) is NOT covered: c07_ssh_disconnect (kept in the tree) did not finish in 90 min"],
     "harnesses": [
         harness("c07_tls_disconnect", functions=["transport::tls::Receiver::recv"],
-                bounds="strict prefix of one message (payload<=2) then Eof/Abort, 1 poll, 32-byte buffer", loops=FRAMING_LOOPS, stubbing=True, timeout={"quick": 900, "thorough": 2400}),
-        harness("c07_junos_local_disconnect", functions=["transport::junos_local::Receiver::recv"], bounds="as c07_tls_disconnect", loops=FRAMING_LOOPS, stubbing=True,
-                timeout={"quick": 900, "thorough": 2400}),
+                bounds="strict prefix of one message (payload<=2) then Eof/Abort, 1 poll, 32-byte buffer", loops=FRAMING_LOOPS, stubbing=True),
+        harness("c07_junos_local_disconnect", functions=["transport::junos_local::Receiver::recv"], bounds="as c07_tls_disconnect", loops=FRAMING_LOOPS, stubbing=True),
     ],
 }
+
+# kept for development; not part of any tier (did not finish in 90 minutes)
+SSH_EXPERIMENTAL = [
+    harness("c06_ssh_segmentation", loops=SSH_LOOPS, stubbing=True, tiers=["experimental"], timeout={"experimental": 5400}, mem_gb=30),
+    harness("c07_ssh_disconnect", loops=SSH_LOOPS, stubbing=True, tiers=["experimental"], timeout={"experimental": 5400}, mem_gb=30),
+]
+CHECKS["C06"]["harnesses"].append(SSH_EXPERIMENTAL[0])
+CHECKS["C07"]["harnesses"].append(SSH_EXPERIMENTAL[1])
+
+# ------------------------------------------------------------------------------------------- C09
+
+C09_BOUNDS = "every subset of 13 capability bits (with every combination of the url schemes file/ftp/http) x every parameter choice of the operation, decided in one query"
+_C09 = [
+    ("c09_get_op", ["Get::new", "get::Builder::filter/finish", "Filter::try_use"]),
+    ("c09_get_config_running", ["GetConfig::new", "get_config::Builder::source/filter/finish", "Datastore::try_as_source", "Filter::try_use"]),
+    ("c09_get_config_candidate", ["get_config::Builder::source/filter/finish"]),
+    ("c09_get_config_startup", ["get_config::Builder::source/filter/finish"]),
+    ("c09_lock_unlock", ["Lock::new", "Unlock::new", "lock::Builder::target/finish", "Datastore::try_as_lock_target"]),
+    ("c09_commit_plain", ["Commit::new", "commit::Builder::confirmed/confirm_timeout/finish"]),
+    ("c09_commit_persist", ["commit::Builder::persist/finish"]),
+    ("c09_commit_persist_id", ["commit::Builder::persist_id/finish"]),
+    ("c09_commit_persist_both", ["commit::Builder::persist/persist_id/finish"]),
+    ("c09_simple_ops", ["CancelCommit::new", "DiscardChanges::new", "KillSession::new", "CloseSession::new"]),
+    ("c09_validate", ["Validate::new", "validate::Builder::source/config/finish", "Datastore::try_as_source"]),
+    ("c09_delete_config", ["DeleteConfig::new", "delete_config::Builder::target/finish", "Datastore::try_as_target"]),
+    ("c09_copy_config_to_running", ["CopyConfig::new", "copy_config::Builder::target/source/config/finish"]),
+    ("c09_copy_config_to_candidate", ["copy_config::Builder::target/source/config/finish"]),
+    ("c09_copy_config_to_startup", ["copy_config::Builder::target/source/config/finish"]),
+    ("c09_edit_config_target", ["EditConfig::new", "edit_config::Builder::target/config/finish", "Datastore::try_as_target"]),
+    ("c09_edit_config_test_option", ["edit_config::Builder::test_option", "TestOption::try_use"]),
+    ("c09_edit_config_error_option", ["edit_config::Builder::error_option", "ErrorOption::try_use"]),
+    ("c09_url_file", ["Url::try_new", "edit_config::Builder::url", "delete_config::Builder::url"]),
+    ("c09_url_ftp", ["Url::try_new"]),
+    ("c09_url_http", ["Url::try_new"]),
+    ("c09_operation_new_gate", ["Operation::new (trait default method, instantiated for DiscardChanges)"]),
+    ("c09_junos_ops", ["OpenConfiguration::new", "CloseConfiguration::new", "LockConfiguration::new", "UnlockConfiguration::new", "CommitConfiguration::new"]),
+]
+CHECKS["C09"] = {
+    "crates": ["netconf"],
+    "explanation": "Operation::new's two halves (the REQUIRED_CAPABILITIES gate and the builder run: every builder method and finish() of each "
+                   "operation) are executed symbolically against a Context whose server capability set is built from 13 symbolic bits; the "
+                   "result (request built / refused) is compared with the RFC 6241 section 8 requirement table written independently in the "
+                   "harness.  Parameter values with small domains are enumerated by concrete loops inside each harness.  The real "
+                   "Operation::new is executed in c09_operation_new_gate.",
+    "assumptions": ["observation point is Operation::new (what Session::rpc calls before anything is written)",
+                    "edit-config with target=startup is accepted with :startup as the code does (RFC 6241 8.7.5 does not list it; not decided here)",
+                    "URL parsing (iri-string) runs on three concrete URLs only; the url harnesses are thorough-tier only (they need > 15 min)",
+                    "the :url scheme list always has three entries, a scheme that is not advertised being replaced by a junk scheme of the same length"],
+    "harnesses": [
+        harness(n, functions=f, bounds=C09_BOUNDS, target="c09_%d" % (i % 8), mem_gb=24,
+                **({"tiers": ["thorough"], "timeout": {"thorough": 3600}} if n.startswith("c09_url") else {}))
+        for i, (n, f) in enumerate(_C09)
+    ],
+}
+
+# ------------------------------------------------------------------------------------------- C08
 
 READER_LOOPS = {
     r"ReadXml.*read_xml": 7,      # reader loops: <= 2 cells per item + End + exit
@@ -95,22 +174,121 @@ READER_LOOPS = {
 CHECKS["C08"] = {
     "crates": ["netconf"],
     "explanation": "Each reply reader (EmptyReply, DataReply<Opaque>, BareReply, load_configuration::Reply) is executed symbolically over every "
-                   "reply of up to 3 grammar items (ok as <ok/> or <ok></ok>, rpc-error with severity error or warning, comment, unexpected "
-                   "element, <ok/> in a foreign namespace, <data>, stray text), compositional: rpc::Error::read_xml is replaced by a summary "
-                   "stub in the outer-reader harnesses and checked on its own in c08_rpc_error_reader.",
+                   "reply of up to 2 (thorough: 3) grammar items (ok as <ok/> or <ok></ok>, rpc-error with severity error or warning, comment, "
+                   "unexpected element, <ok/> in a foreign namespace, <data>, stray text; inside load-configuration-results also "
+                   "load-error-count 0..3), compositional: rpc::Error::read_xml is replaced by a summary stub in the outer-reader harnesses "
+                   "and checked on its own in c08_rpc_error_reader.",
     "assumptions": ["event-level: the quick-xml model replays event tapes; byte-level tokenisation is quick-xml's",
-                    "summary stub for rpc::Error::read_xml (consumes the element, returns the severity the tape declares); justified by c08_rpc_error_reader"],
+                    "summary stub for rpc::Error::read_xml (consumes the element, returns the severity the tape declares); justified by c08_rpc_error_reader",
+                    "Errors::new / Errors::push (one-line Vec wrappers) replaced by a preallocated, never-reallocating version that asserts len < 4"],
     "harnesses": [
-        harness("c08_empty_reply", functions=["EmptyReply::read_xml"], bounds="<=2 items from the 9-item reply grammar", deep_bounds="<=3 items", deep=True, loops=READER_LOOPS, stubbing=True, timeout={"quick": 600, "thorough": 5400}, mem_gb=30),
-        harness("c08_data_reply", functions=["DataReply::<Opaque>::read_xml", "Opaque::read_xml"], bounds="<=2 items", deep_bounds="<=3 items", deep=True, loops=READER_LOOPS, stubbing=True, timeout={"quick": 600, "thorough": 5400}, mem_gb=30),
-        harness("c08_bare_reply", functions=["junos::BareReply::read_xml"], bounds="<=2 items", deep_bounds="<=3 items", deep=True, loops=READER_LOOPS, stubbing=True, timeout={"quick": 600, "thorough": 5400}, mem_gb=30),
+        harness("c08_empty_reply", functions=["EmptyReply::read_xml"], bounds="<=2 items from the 9-item reply grammar", deep_bounds="<=3 items", deep=True,
+                loops=READER_LOOPS, stubbing=True, mem_gb=30),
+        harness("c08_data_reply", functions=["DataReply::<Opaque>::read_xml", "Opaque::read_xml"], bounds="<=2 items", deep_bounds="<=3 items", deep=True,
+                loops=READER_LOOPS, stubbing=True, mem_gb=30),
+        harness("c08_bare_reply", functions=["junos::BareReply::read_xml"], bounds="<=2 items", deep_bounds="<=3 items", deep=True,
+                loops=READER_LOOPS, stubbing=True, mem_gb=30),
         harness("c08_load_configuration_reply", functions=["junos::load_configuration::Reply::read_xml"],
                 bounds="<load-configuration-results> present or absent, <=2 inner items (ok, ok pair, rpc-error error/warning, load-error-count 0..3, comment, other)",
-                deep_bounds="... <=3 inner items", deep=True, loops=READER_LOOPS, stubbing=True, timeout={"quick": 900, "thorough": 5400}, mem_gb=30),
+                deep_bounds="... <=3 inner items", deep=True, loops=READER_LOOPS, stubbing=True, mem_gb=30),
         harness("c08_rpc_error_reader", functions=["rpc::Error::read_xml", "Type/Tag/Severity::from_str"],
-                bounds="three mandatory children in all 6 orders, each present/absent, 4 severity texts", loops=READER_LOOPS, timeout={"quick": 900, "thorough": 3000}),
+                bounds="three mandatory children in all 6 orders, each present/absent, 4 severity texts", loops=READER_LOOPS, mem_gb=30,
+                timeout={"quick": 1500, "thorough": 3600}),
     ],
 }
+
+# ------------------------------------------------------------------------------------------- C05 / C18 / C12
+
+SESSION_LOOPS = {
+    r"ReadXml.*read_xml|from_xml": 6,
+    r"seek_end": 5,
+    r"name_id_of": 6,
+    r"Session.*recv": 4,
+    r"run_bounded": 3,
+    r"from_ascii": 4,
+    r"resolve_attribute": 3,
+}
+
+CHECKS["C05"] = {
+    "crates": ["netconf"],
+    "explanation": "One inductive step of Session::recv (real OutstandingRequest::take, PartialReply::recv/read_xml, Reply::try_from, "
+                   "DataReply::read_xml, MessageId::try_from): the waiter for message-id 1 runs from every state of the outstanding-request map "
+                   "(entries 1 and 2 each absent / Pending / Ready / Complete, parked replies sitting under their own id) against a transport "
+                   "that delivers up to 1 (thorough: 2) further replies bearing ids from {1, 2, 9}.  Asserted: locks released; a parked reply "
+                   "stays under its own id; an Ok result is the reply bearing id 1 and is only delivered if that reply was parked or arrived "
+                   "for a pending request; the waiter suspends only if its request is pending and the transport is drained.  A second harness "
+                   "covers the lock hand-over between two waiters.",
+    "assumptions": ["histories are covered through the one-step induction from an arbitrary valid map state, not by unrolling schedules",
+                    "std::str::from_utf8 replaced by a trusting stub (inputs are the one-byte tape selectors); tokio Mutex model",
+                    "uniqueness of message-ids (MessageId::increment) is not covered by these harnesses"],
+    "harnesses": [
+        harness("c05_recv_step_one_arrival", functions=["Session::recv", "OutstandingRequest::take", "PartialReply::recv/read_xml", "Reply::try_from/read_xml", "DataReply::read_xml", "MessageId::try_from"],
+                bounds="waiter for id 1; map entries 1,2 each absent/Pending/Ready/Complete; <=1 arriving reply with id in {1,2,9}; 2 polls", loops=SESSION_LOOPS, stubbing=True,
+                timeout={"quick": 1500, "thorough": 3600}, mem_gb=30),
+        harness("c05_recv_after_lock_handover", functions=["Session::recv"],
+                bounds="2 outstanding requests; the waiter's reply is parked by the other waiter while it waits for the receive lock; 1+2 polls", loops=SESSION_LOOPS, stubbing=True,
+                timeout={"quick": 1500, "thorough": 3600}, mem_gb=30),
+        harness("c05_recv_step_two_arrivals", functions=["Session::recv"],
+                bounds="as c05_recv_step_one_arrival with <=2 arriving replies", loops=SESSION_LOOPS, stubbing=True, tiers=["thorough"], timeout={"thorough": 7200}, mem_gb=40),
+    ],
+}
+
+CHECKS["C18"] = {
+    "crates": ["netconf"],
+    "explanation": "Session::recv futures are created, polled to a suspension point and dropped; afterwards the locks must be free and the "
+                   "other outstanding request must complete with its own reply once that arrives.",
+    "assumptions": ["tokio Mutex model; in-memory transport whose receive buffer lives in the handle",
+                    "drop points covered: never polled, suspended in the transport read (lock holder), suspended on the map lock with a reply in hand"],
+    "harnesses": [
+        harness("c18_drop_while_waiting_for_transport", functions=["Session::recv (future drop glue)", "tokio::sync::Mutex guard release (model)"],
+                bounds="2 outstanding requests; reader dropped unpolled or after 1 poll; then the other reply arrives", loops=SESSION_LOOPS, stubbing=True,
+                timeout={"quick": 1500, "thorough": 3600}, mem_gb=30),
+        harness("c18_drop_at_map_lock_with_reply_in_hand", functions=["Session::recv (future drop glue)"], expect="finding",
+                bounds="reader has read request 2's reply and waits for the map lock held by a sending rpc(); dropped there", loops=SESSION_LOOPS, stubbing=True,
+                timeout={"quick": 1500, "thorough": 3600}, mem_gb=30),
+    ],
+}
+
+CHECKS["C12"] = {
+    "crates": ["netconf"],
+    "explanation": "ServerHello::read_xml / Capabilities::read_xml / Capability::from_str / SessionId::from_str over every hello built from: "
+                   "capabilities present/absent with :base:1.0 and :base:1.1 each present/absent; session-id absent, once or twice, before or "
+                   "after capabilities, text from {1, 4294967295, 0, 4294967296, -1, x}.  Separately: highest_common_version of the client's "
+                   "default hello against every server subset of {:base:1.0, :base:1.1, :candidate}, and the framing of the first request "
+                   "against the negotiated version (RFC 6242 4.1/4.2).",
+    "assumptions": ["event-level hello tapes; namespace prefix choice is resolved inside quick-xml",
+                    "both orders of the simultaneous hello exchange are not distinguished (try_join! over a send that cannot fail)"],
+    "harnesses": [
+        harness("c12_negotiation_and_framing", functions=["ClientHello::default", "Capabilities::highest_common_version", "rpc::Request::to_xml (ClientMsg::to_xml)"],
+                bounds="server advertises any subset of {:base:1.0, :base:1.1, :candidate}", loops={r"write_escaped|from_slice|Inline": 45}),
+        harness("c12_server_hello_reader", functions=["ServerHello::read_xml", "Capabilities::read_xml", "Capability::from_str", "SessionId::from_str"],
+                bounds="capabilities present/absent x base1.0 x base1.1; session-id absent/once/twice, 6 texts, before or after capabilities",
+                loops=READER_LOOPS, timeout={"quick": 1500, "thorough": 3600}, mem_gb=30),
+    ],
+}
+
+# ------------------------------------------------------------------------------------------- C19
+
+CHECKS["C19"] = {
+    "crates": ["netconf", "junos-agent"],
+    "explanation": "Loop::start (the select! loop, interval resets, back-off arithmetic) and handle_task are executed symbolically over the "
+                   "virtual clock of the tokio model: every period in 1..2^40 s, every outcome sequence of 3 consecutive runs, every job "
+                   "duration 0..100 s; SIGHUP/SIGINT/SIGTERM arriving at any instant while the loop waits; Frequency::from for every u64.",
+    "assumptions": ["the outcome of each updater job is chosen by the harness through the tokio model's spawn override (JoinHandle completes "
+                    "with Ok(()) or Err); what happens inside a run is C04's subject",
+                    "tokio::time::Interval modelled after tokio 1.37 (Burst): tick at deadline d re-arms d+period; reset()=now+period; "
+                    "reset_after(x)=now+x; reset_immediately()=now",
+                    "overflow of `backoff * 2` needs 58 consecutive failures and is outside the 3-run bound"],
+    "harnesses": [
+        harness("c19_backoff_and_period", package=AGENT, functions=["task::Loop::start", "task::handle_task", "task::Updater::init_loop"],
+                bounds="period 1..2^40 s, 3 runs, job duration <= 100 s", loops={r"Loop.*start": 5}, timeout={"quick": 1500, "thorough": 3600}, mem_gb=30),
+        harness("c19_signals", package=AGENT, functions=["task::Loop::start (signal arms)"], bounds="one run, then one signal at any time before the timer",
+                loops={r"Loop.*start": 4}, timeout={"quick": 1500, "thorough": 3600}, mem_gb=30),
+        harness("c19_frequency_zero_is_one_shot", package=AGENT, functions=["cli::Frequency::from"], bounds="all u64"),
+    ],
+}
+
+# ------------------------------------------------------------------------------------------- claims
 
 # Properties whose checks are registered in MANIFEST.json (the others stay in the registry for
 # development but are listed under not_applicable until their quick tier is reliably green).
